@@ -96,7 +96,8 @@ def generate_registration_options(
     if not user_display_name:
         user_display_name = user_name
 
-    pub_key_cred_params = default_supported_pub_key_params
+    # Build a fresh list of fresh objects: the caller owns (and may mutate) what it gets back
+    pub_key_cred_params = _generate_pub_key_cred_params(default_supported_pub_key_algs)
     if supported_pub_key_algs:
         pub_key_cred_params = _generate_pub_key_cred_params(supported_pub_key_algs)
 
